@@ -377,11 +377,41 @@ def byte? (w : String) : Option UInt8 := do
   let n ← w.toNat?
   if n < 256 then some (UInt8.ofNat n) else none
 
+/-- `conc`: the sub-cases one after the other. Sub-case = `fm hp nr (id seq qual annspec)*nr` on the case side and
+    `<floats> (<info-hex> <lib>)*nr` on the data side: exactly the case `rt fm hp so si nr …`, answered by `rtRun`
+    (the existing sequential model; the harness demands the same answers from g goroutines running together) -/
+def concSubs (so si : UInt8) : Nat → List String → List String → Option (List String)
+  | 0, [], [] => some []
+  | k + 1, fm :: hp :: nr :: rest, flw :: aug => do
+    if (fm ≠ "fasta" ∧ fm ≠ "fastq") ∨ (hp ≠ "j" ∧ hp ≠ "g") then none
+    let nr ← nr.toNat?
+    let fl ← parseFloats flw
+    let (recs, rest') ← parseInRecs fl nr rest
+    if aug.length < 2 * nr then none
+    let a ← parseAug nr (aug.take (2 * nr))
+    let res := if recs.any (fun r => r.seq = []) then "w=fatal" else rtRun fm hp so si recs a
+    let t ← concSubs so si k rest' (aug.drop (2 * nr))
+    pure (res :: t)
+  | _, _, _ => none
+
+def concRun (main aug : List String) : String :=
+  match main with
+  | _g :: _r :: so :: si :: n :: rest =>
+    match byte? so, byte? si, n.toNat? with
+    | some so, some si, some n =>
+      match concSubs so si n rest aug with
+      | some rs => " ; ".intercalate rs
+      | none => "bad-op"
+    | _, _, _ => "bad-op"
+  | _ => "bad-op"
+
 def run (line : String) : String :=
   let (main, aug) := match line.splitOn " + " with
     | [m, a] => (words m, words a)
     | _ => (words line, [])
   match main with
+  | "conc" :: rest => concRun rest aug
+  | "race" :: "conc" :: rest => concRun rest aug     -- the same case replayed under the race detector
   | ["hdr", h] =>
     match aug with
     | [lib] =>
